@@ -433,9 +433,9 @@ class RoundTrip(Suite):
             top_docs(), st.sampled_from(['json', 'json_charset', 'vendor']), chunkings(), st.booleans(),
             st.booleans())
         form_case = st.builds(
-            lambda doc, chunks, tail, cl: {'kind': 'form', 'doc': json.dumps(doc), 'ct': 'form',
-                                           'chunks': chunks, 'tail_empty': tail, 'cl': cl},
-            forms(), chunkings(), st.booleans(), st.booleans())
+            lambda doc, chunks, tail, cl, csv: {'kind': 'form', 'doc': json.dumps(doc), 'ct': 'form',
+                                                'chunks': chunks, 'tail_empty': tail, 'cl': cl, 'form_csv': csv},
+            forms(), chunkings(), st.booleans(), st.booleans(), st.booleans())
         return weighted((3, json_case), (1, form_case))
 
     def run(self, case):
@@ -479,6 +479,10 @@ class RoundTrip(Suite):
         for app in (wapp, aapp):
             app.req_options.media_handlers[VENDOR] = falcon.media.JSONHandler()
             app.resp_options.media_handlers[VENDOR] = falcon.media.JSONHandler()
+            if case.get('form_csv'):
+                # comma-separated lists enabled on the request side: commas inside values travel percent-encoded, so the
+                # document must still come back unchanged
+                app.req_options.media_handlers[falcon.MEDIA_URLENCODED] = falcon.media.URLEncodedFormHandler(csv=True)
         wapp.add_route('/m', WRes())
         aapp.add_route('/m', ARes())
 
@@ -525,7 +529,7 @@ class RoundTrip(Suite):
             special = any(not (c.isalnum() and ord(c) < 128)
                           for k, v in doc.items() for s in ([k] + (v if type(v) is list else [v])) for c in s)
             nontrivial = multi or special
-            labels = ['form', 'form:multi' if multi else 'form:single',
+            labels = ['form', 'form:csv_on' if case.get('form_csv') else 'form:csv_off', 'form:multi' if multi else 'form:single',
                       'form:special_chars' if special else 'form:plain']
         else:
             d = depth(doc)
